@@ -27,6 +27,8 @@
 (* mode "PK"  the same from the initial states the compiler KEPT as tags   *)
 (*            (`kept`, read off K's initial state) -- used by BeliefJudge  *)
 (*            for "dropping dominated states never changes the answer".    *)
+(*            Tags: every kept tag is one of the possible initial states   *)
+(*            (K_S0 tags are the states of S).                             *)
 (* Both spaces are finite and explored completely; Cap bounds the number   *)
 (* of distinct states of a run (a real invariant, handled by the driver).  *)
 (* Verdicts are total: FAIL lines are printed, the invariant stays TRUE.   *)
@@ -133,7 +135,10 @@ Verdict ==
         THEN /\ PrintT(<<"KG", id, TLCGet("level")>>)
              /\ IF SoundClause # "ok" THEN PrintT(<<"FAIL", id, SoundClause>>) ELSE TRUE
         ELSE TRUE
-   ELSE IF AllGoalP(cid, B) THEN PrintT(<<"PG", id, mode, TLCGet("level")>>) ELSE TRUE
+   ELSE /\ (IF AllGoalP(cid, B) THEN PrintT(<<"PG", id, mode, TLCGet("level")>>) ELSE TRUE)
+        \* K_S0: the tags are possible initial states (checked in the initial state of mode PK)
+        /\ (IF mode = "PK" /\ B = Kept(cid) /\ ~(Kept(cid) \subseteq B0(cid))
+            THEN PrintT(<<"FAIL", id, "tag-is-not-a-possible-initial-state">>) ELSE TRUE)
 
 \* real invariants: state cap (machinery) and, in witness runs, the negated findings
 WithinCap == TLCGet("distinct") <= Cap
